@@ -3,6 +3,7 @@ package main
 import (
 	"fmt"
 	"math"
+	"regexp"
 	"strconv"
 	"strings"
 )
@@ -152,7 +153,7 @@ func c17Systematic(tier string) []*Case {
 	}
 	// in interactive mode every line sees the real ক্লক, whatever an earlier line did to the name
 	{
-		stdin := lines(FnClock+" = 0;", KwVar+" keep = "+FnClock+";", KwPrint+" "+FnClock+"();")
+		stdin := lines(FnClock+" = 0;", KwVar+" keep = "+FnClock+";", KwPrint+" \"#A#\";", KwPrint+" "+FnClock+"();", KwPrint+" \"#B#\";")
 		c := replCfg(stdin)
 		c.ClockStartMs = 1_727_000_000_000
 		cs := &Case{Prop: "C17", Kind: "clock-repl", Sig: "repl:rebound-earlier", Program: stdin, Runs: []Run{{Role: "clock", Cfg: c}}}
@@ -221,19 +222,20 @@ func c17Eval(cs *Case, ctx *EvalCtx) []Violation {
 	}
 	stdout := o.Stdout
 	if cs.Kind == "clock-repl" {
-		// keep only the lines that are numbers (prompts and echoes of the other lines are not judged)
-		var keep []string
-		for _, l := range strings.Split(stdout, "\n") {
-			f := strings.Fields(l)
-			if len(f) > 0 {
-				if _, err := strconv.ParseFloat(f[len(f)-1], 64); err == nil && strings.ContainsAny(f[len(f)-1], ".e") || (len(f) > 0 && len(f[len(f)-1]) > 6) {
-					keep = append(keep, f[len(f)-1])
-				}
+		// the value sits between the two marker lines; whatever the prompt looks like,
+		// the number is the trailing numeral of the line that follows marker A
+		a := strings.Index(stdout, "#A#\n")
+		b := strings.Index(stdout, "#B#\n")
+		val := ""
+		if a >= 0 && b > a {
+			seg := stdout[a+4 : b]
+			if nl := strings.Index(seg, "\n"); nl >= 0 {
+				val = regexp.MustCompile(`[-+]?[0-9]*\.?[0-9]+(?:[eE][-+]?[0-9]+)?$`).FindString(seg[:nl])
 			}
 		}
-		stdout = strings.Join(keep, "\n")
-		if len(keep) > 0 {
-			stdout += "\n"
+		stdout = ""
+		if val != "" {
+			stdout = val + "\n"
 		}
 	}
 	ls := strings.Split(strings.TrimSuffix(stdout, "\n"), "\n")
